@@ -1213,8 +1213,12 @@ func emit(w *lib.Writer, nm *namer, spec *caseSpec, s *sim, out outcome) {
 			}
 		}
 	}
-	tags := []string{"mode:" + mode, "ep:" + spec.ep, "dest0:" + spec.dest0Kind, "final:" + out.final,
-		fmt.Sprintf("continuous:%v", spec.continuous), fmt.Sprintf("passes:%d", len(s.passes)), fmt.Sprintf("idf:%v", spec.idf)}
+	finalTag := out.final
+	if mode == "MLoose" {
+		finalTag = "(schedule-dependent)"
+	}
+	tags := []string{"mode:" + mode, "ep:" + spec.ep, "dest0:" + spec.dest0Kind, "final:" + finalTag,
+		fmt.Sprintf("continuous:%v", spec.continuous), fmt.Sprintf("passes:%d", len(obsPasses)), fmt.Sprintf("idf:%v", spec.idf)}
 	tagset := map[string]bool{}
 	tag := func(x string) {
 		if !tagset[x] {
@@ -1289,8 +1293,11 @@ func emit(w *lib.Writer, nm *namer, spec *caseSpec, s *sim, out outcome) {
 				fail("quota: batch start=%d retried after %dns, less than the minimum back-off (pass %d)", q.start, q.delay, pi)
 			}
 		}
-		if !p.rootOK || !p.sth || p.sthSize < 0 || (p.cons != nil && !p.goodCons) {
-			anyAbort = anyAbort || !p.rootOK || !p.sth || p.sthSize < 0 || (p.cons != nil && !p.goodCons)
+		// a pass that ends before the fan-out for a reason the property allows (the last scripted pass
+		// is the harness's own cancellation and does not count)
+		terminal := pi < len(spec.scripts) && spec.scripts[pi].root == "cancel"
+		if !terminal && (!p.rootOK || p.sthSize < 0 || (p.cons != nil && !p.goodCons)) {
+			anyAbort = true
 		}
 	}
 	for i := range s.added {
@@ -1347,9 +1354,16 @@ func emit(w *lib.Writer, nm *namer, spec *caseSpec, s *sim, out outcome) {
 	// ---------------- Coq term
 	var passes []string
 	var passesJ []interface{}
-	for _, p := range obsPasses {
+	for pi, p := range obsPasses {
 		stream := append([]*obsReq{}, p.stream...)
 		get := append([][2]int64{}, p.get...)
+		if mode == "MLoose" && pi == len(obsPasses)-1 {
+			// the pass a fault cut short under a concurrent schedule: what was submitted before the
+			// cut is not determined by the input, so it is not part of the case (the direct oracle
+			// above has looked at all of it)
+			stream, get = nil, nil
+			tag("cut:concurrent-pass")
+		}
 		if parallel {
 			sort.SliceStable(stream, func(i, j int) bool {
 				if stream[i].start != stream[j].start {
@@ -1443,7 +1457,7 @@ func emit(w *lib.Writer, nm *namer, spec *caseSpec, s *sim, out outcome) {
 			tag("fired:malformed-entry")
 		}
 		passes = append(passes, fmt.Sprintf("{| op_sth := %s; op_cons := %s; op_get := %s; op_stream := %s |}", lib.Bool(p.sth), cons, pairs(get), lib.List(reqs)))
-		passesJ = append(passesJ, map[string]interface{}{"dest_size": p.ts, "sth_size": p.sthSize, "consistency": p.cons, "get_entries": len(p.get), "add_sequenced_leaves": reqsJ})
+		passesJ = append(passesJ, map[string]interface{}{"dest_size": p.ts, "sth_size": p.sthSize, "consistency": p.cons, "get_entries": len(get), "add_sequenced_leaves": reqsJ})
 	}
 	for _, ps := range spec.scripts {
 		if len(ps.short) > 0 {
@@ -1473,7 +1487,10 @@ func emit(w *lib.Writer, nm *namer, spec *caseSpec, s *sim, out outcome) {
 		d0 = append(d0, nm.leaf(l))
 	}
 	var scs []string
-	for _, ps := range spec.scripts {
+	for i, ps := range spec.scripts {
+		if mode == "MLoose" && i >= len(obsPasses) {
+			break // what the world does after the cut depends on the schedule (effective replies)
+		}
 		scs = append(scs, coqScript(ps))
 	}
 	if s.overflow && mode != "MLoose" {
@@ -1486,15 +1503,23 @@ func emit(w *lib.Writer, nm *namer, spec *caseSpec, s *sim, out outcome) {
 	}
 	cfg := fmt.Sprintf("{| c_batch := %d; c_start := %s; c_end := %s; c_continuous := %s; c_nocheck := %s; c_idf := %s |}",
 		spec.batch, lib.Z(spec.start), lib.Z(spec.end), lib.Bool(spec.continuous), lib.Bool(spec.nocheck), idf)
+	finC, dlC, sizeC := out.final, lib.List(dl), lib.Z(s.size)
+	if mode == "MLoose" { // not determined by the input, not compared
+		finC, dlC, sizeC = "OFErr", "[]", lib.Z(0)
+	}
 	coq := fmt.Sprintf("(CMig %s Ep%s %s %s %s %s %s sha_tab %s %s %s %s)", mode, spec.ep, cfg, entryNames(spec.src0), lib.List(d0), lib.Z(spec.size0),
-		lib.List(scs), out.final, lib.List(passes), lib.List(dl), lib.Z(s.size))
+		lib.List(scs), finC, lib.List(passes), dlC, sizeC)
+	var impl interface{} = map[string]interface{}{"final": out.final, "error": out.errS, "passes": passesJ, "dest_leaves": len(s.dest), "dest_size": s.size, "source_size": len(s.src)}
+	if mode == "MLoose" {
+		impl = map[string]interface{}{"schedule_dependent_after_pass": len(obsPasses) - 1, "passes": passesJ}
+	}
 	w.Add(lib.Case{
 		Coq: coq,
 		Input: map[string]interface{}{"entry_point": spec.ep, "continuous": spec.continuous, "batch": spec.batch, "fetchers": spec.fetchers,
 			"submitters": spec.submitters, "channel": spec.chanSize, "start_index": spec.start, "end_index": spec.end,
 			"no_consistency_check": spec.nocheck, "identity": spec.idf.String(), "source_size0": len(spec.src0),
 			"dest0": spec.dest0Kind, "dest_size0": spec.size0, "scripted_passes": len(spec.scripts)},
-		Impl:   map[string]interface{}{"final": out.final, "error": out.errS, "passes": passesJ, "dest_leaves": len(s.dest), "dest_size": s.size, "source_size": len(s.src)},
+		Impl:   impl,
 		PropOK: propOK, Note: note, Tags: tags,
 	})
 }
